@@ -477,7 +477,7 @@ def r11_7(prog: Program, chk: Check) -> None:
     chk.rule(
         "R11.7",
         "the diagnostic filter as a finite model: show_error, has_file_level_ignore, _lines, is_enabled and get_unused_ignores are interpreted from their AST on every file of up to "
-        f"{max_lines} lines drawn from 10 line kinds (code, trailing bare / [A] / [B] / two comments, own-line bare / [A] / indented, plain comment), every sequence of up to 2 raw "
+        f"{max_lines} lines drawn from 13 line kinds (code, trailing bare / [A] / [B] / two comments, own-line bare / [A] / indented, plain comment, blank, a form feed - white space for the parser, not a line end), every sequence of up to 2 raw "
         "diagnostics (line x code, duplicates included) and every set of enabled codes: the reported diagnostics are exactly the enabled ones not suppressed by a documented ignore form, "
         "the used / unused ignore comments are those that did / did not suppress something, and neither depends on which codes are enabled",
         floor=5,
